@@ -368,6 +368,62 @@ def discharge(jobs, workers=None):
 _INSTANCES: list = []
 
 
+def _fast_index(i):
+    """phase 1 (forked child, inherited z3 objects): one short attempt; undecided queries are serialised for phase 2"""
+    import z3
+
+    key, pc, goal = _INSTANCES[i]
+    t0 = time.time()
+    s = z3.Solver()
+    s.set("timeout", min(1500, Z3_TIMEOUT_MS))
+    for c in pc:
+        s.add(c)
+    s.add(z3.Not(goal))
+    r = s.check()
+    if r == z3.unsat:
+        return key, "unsat", "z3", time.time() - t0, "", ""
+    smt2 = s.to_smt2()
+    if r == z3.sat:
+        try:
+            import json
+
+            model = json.dumps(model_dict(s.model(), z3))
+        except Exception:
+            model = ""
+        return key, "sat", "z3", time.time() - t0, model, smt2
+    return key, "unknown", "z3", time.time() - t0, "", smt2
+
+
+def _hard_group(items):
+    """phase 2: the undecided instances of ONE obligation, in turn; a definite counterexample for one instance settles
+    the obligation (it failed), so the remaining instances are not attempted"""
+    out = []
+    budget_left = GROUP_BUDGET_S
+    cands = 0
+    for n, (key, smt2) in enumerate(items):
+        t0 = time.time()
+        if budget_left <= 0:
+            out.append((key, "unknown", "budget", 0.0, "", smt2))
+            continue
+        k, verdict, solver, secs, model = solve_one((key, smt2))
+        budget_left -= time.time() - t0
+        out.append((key, verdict, solver, time.time() - t0, model, smt2))
+        if verdict == "sat":
+            for key2, smt22 in items[n + 1:]:
+                out.append((key2, "skipped", "-", 0.0, "", ""))
+            break
+        if verdict == "sat-candidate":
+            cands += 1
+            if cands >= 2:
+                for key2, smt22 in items[n + 1:]:
+                    out.append((key2, "skipped", "-", 0.0, "", ""))
+                break
+    return out
+
+
+GROUP_BUDGET_S = float(os.environ.get("VERIF_GROUP_BUDGET_S", "150"))
+
+
 def _solve_index(i):
     """runs in a forked child: the z3 objects of the parent are inherited, nothing is serialised unless the fast
     attempt does not decide the query"""
@@ -413,9 +469,17 @@ def discharge_objects(instances, workers=None):
         import multiprocessing as mp
 
         ctx = mp.get_context("fork")
+        hard: dict = {}
         with ProcessPoolExecutor(max_workers=workers, mp_context=ctx) as ex:
-            for k, *rest in ex.map(_solve_index, range(len(instances)), chunksize=16):
-                out[k] = tuple(rest)
+            for k, verdict, solver, secs, model, smt2 in ex.map(_fast_index, range(len(instances)), chunksize=16):
+                if verdict == "unknown":
+                    hard.setdefault(k[1], []).append((k, smt2))
+                else:
+                    out[k] = (verdict, solver, secs, model, smt2)
+            if hard:
+                for res in ex.map(_hard_group, list(hard.values())):
+                    for k, verdict, solver, secs, model, smt2 in res:
+                        out[k] = (verdict, solver, secs, model, smt2)
         return out
     finally:
         _INSTANCES = []
